@@ -146,3 +146,6 @@ func Fill(p []byte, n int, src string, off int64) {}
 
 // Prov returns the abstract source range held by p, if known.
 func Prov(p []byte) (src string, off int64, ok bool) { return "", 0, false }
+
+// IsConcrete reports whether v contains no symbolic part (always true natively).
+func IsConcrete(v interface{}) bool { return true }
